@@ -76,6 +76,21 @@ theorem add_event_correlates_exactly (c : Cfg) (ops : List Arr) (a : Arr)
   have hinv' := add_inv c ops _ a hinv h2
   exact correlate_eq_spec c (ops ++ [a]) (addEvent c (run c St.init ops) a).1 a.key a.ev.ts hinv' hfresh
 
+/-- **The same with the cap in force.** `evictedBy c St.init hist` lists exactly the events the cap
+removed (`remove(0)`: the oldest *arrivals* of the hot (source, key)). Whatever the cap did before —
+hit any number of times, on any key — `add_event` still returns the oracle's answer as long as no
+in-window candidate of *this* key is expirable or is one of the evicted events. So the known limit
+`C15-cap-evicts-in-window` is confined to arrivals one of whose in-window candidates was itself
+evicted; which events those are is fixed by the modelled code (and compared exactly by the tie). -/
+theorem add_event_correlates_exactly_unless_evicted (c : Cfg) (ops : List Arr) (a : Arr)
+    (hfresh : ∀ src ∈ c.sources, ∀ e ∈ histOf (ops ++ [a]) src a.key, e.ts ≥ a.ev.ts - c.window →
+      expirable c.window (ops ++ [a]) e = false ∧ e ∉ evictedBy c St.init (ops ++ [a])) :
+    (addEvent c (run c St.init ops) a).2 = specJoin c (ops ++ [a]) a.key a.ev.ts := by
+  have hinv := run_invE c (ops ++ [a]) [] [] St.init (invE_init c)
+  simp only [List.nil_append] at hinv
+  rw [run_snoc] at hinv
+  exact correlate_eq_specE c (ops ++ [a]) _ (addEvent c (run c St.init ops) a).1 a.key a.ev.ts hinv hfresh
+
 /-- Corollary: it suffices that the arriving event is not older than the earlier arrivals — the
 buffered events themselves may have arrived in any timestamp order (this is what the repair buys;
 the old code needed each key's vector to be sorted). -/
@@ -153,6 +168,18 @@ example :
     noCapHit c St.init (ops ++ [a]) = true
     ∧ (∀ b ∈ ops, b.ev.ts ≤ a.ev.ts)
     ∧ (addEvent c (run c St.init ops) a).2 = some [(0, ⟨200, 2⟩), (1, ⟨500, 1⟩), (2, ⟨2600, 4⟩)] := by
+  decide
+
+/-- non-vacuity of the cap-aware theorem: cap 3 overflowed twice (A@10 and A@11 evicted), the second
+time by an old-timestamp arrival; B@14 still joins with A@13, the most recently arrived in-window A,
+and that candidate is neither expirable nor evicted -/
+example :
+    let c : Cfg := { sources := [0, 1], window := 5000, maxPerKey := 3 }
+    let ops : List Arr := [⟨0, 0, ⟨10000, 0⟩⟩, ⟨0, 0, ⟨11000, 1⟩⟩, ⟨0, 0, ⟨12000, 2⟩⟩, ⟨0, 0, ⟨13000, 3⟩⟩, ⟨0, 0, ⟨1000, 4⟩⟩]
+    let a : Arr := ⟨1, 0, ⟨14000, 5⟩⟩
+    evictedBy c St.init (ops ++ [a]) = [⟨10000, 0⟩, ⟨11000, 1⟩]
+    ∧ noCapHit c St.init (ops ++ [a]) = false
+    ∧ (addEvent c (run c St.init ops) a).2 = some [(0, ⟨13000, 3⟩), (1, ⟨14000, 5⟩)] := by
   decide
 
 end Varpulis.Props.C15
